@@ -79,10 +79,12 @@ def run(db, chk):
                     dn = w.tables["m_donors"]
                     dc = w.tables["m_donors_count"]
                     for n in L:
+                        mult = sum(1 for x in L if x.idx == n.idx)     # a node may be listed twice
                         ent = [v for (row, col), v in dn.cells.items() if row == n.idx and v == CENTRE]
-                        if len(ent) != 1 or dc.cells.get((n.idx,)) != 1:
-                            bad.append("donor entry of receiver %d: %r (count %r)"
-                                       % (n.idx, ent, dc.cells.get((n.idx,))))
+                        if len(ent) != mult or dc.cells.get((n.idx,)) != mult:
+                            bad.append("donor entries of receiver %d: %r (count %r), expected %d "
+                                       "(inverse of the receiver table with multiplicity)"
+                                       % (n.idx, ent, dc.cells.get((n.idx,)), mult))
                     for n in sc.nbs:
                         if n not in L and any(row == n.idx for (row, col) in dn.cells):
                             bad.append("donor entry registered at non-receiver %d" % n.idx)
